@@ -75,6 +75,10 @@ var opaqueModels = map[string]bool{
 	"(*github.com/go-logfmt/logfmt.Decoder).Value":                     true,
 	"(*github.com/go-logfmt/logfmt.Decoder).Err":                       true,
 	"strings.NewReader":                                                true,
+	"os.Getenv":                                                        true,
+	"(*os.File).Fd":                                                    true,
+	"github.com/mattn/go-isatty.IsTerminal":                            true,
+	"github.com/mattn/go-isatty.IsCygwinTerminal":                      true,
 	"text/template.New":                                                true,
 	"(*text/template.Template).Option":                                 true,
 	"(*text/template.Template).Funcs":                                  true,
@@ -540,6 +544,19 @@ func init() {
 		}
 		return []Val{r}
 	})
+	// ---- spf13/pflag: registering a variable stores its default through the pointer; the flag
+	// set remembers the pointer (parsing the command line later writes through it: not modelled)
+	for _, n := range []string{"BoolVarP", "BoolVar", "IntVar", "IntVarP", "StringVar", "StringVarP"} {
+		n := n
+		regEff("(*github.com/spf13/pflag.FlagSet)."+n, "stores the default value through the given pointer; nothing else of the program heap is touched", func(ex *Exec, a []Val, st *State, sig *types.Signature) []Val {
+			vi := 3
+			if strings.HasSuffix(n, "P") {
+				vi = 4
+			}
+			st.heap.storeLeaf(tm(a[1]), tm(a[vi]))
+			return nil
+		})
+	}
 	// ---- bytes.Buffer as a string content; text/template.Execute appends an uninterpreted expansion
 	regEff("(*bytes.Buffer).Reset", "content becomes empty", func(ex *Exec, a []Val, st *State, sig *types.Signature) []Val {
 		st.heap.storeLeaf(Fld(tm(a[0]), bufferContentField), StrLit(""))
